@@ -50,7 +50,6 @@ Definition mkdir_all_ok (vi : nat) (sw : sworld) (c : call) : Prop :=
         p = abs_path (done ++ rest) /\ Forall good_comp (done ++ rest) /\ dir_at s v done par
         /\ (forall c r, rest = c :: r -> alookup str_eqb c (children (f_heap s) par) = None)
         /\ has (m_mode (meta_of (f_heap s) par)) MODE_DIR = true
-        /\ (rest <> [] -> is_setgid (m_mode (meta_of (f_heap s) par)) = false)
         /\ length (done ++ rest) < SEARCH_FUEL
   | _ => False
   end.
@@ -64,12 +63,12 @@ Theorem step_world_m (w : world) (vi : nat) (sw : sworld) (c : call) :
 Proof.
   intros Ha [Hc|Hc]; [exact (step_world_x w vi sw c Ha Hc)|]. pose proof Ha as (Hfs & Hv).
   destruct c; try (destruct Hc; fail).
-  destruct Hc as (-> & Hos & Hadm & done & rest & par & Ep & Hg & Hd & Hfr & Hbit & Hsg & Hlen).
+  destruct Hc as (-> & Hos & Hadm & done & rest & par & Ep & Hg & Hd & Hfr & Hbit & Hlen).
   apply (world_of_lift w vi sw _ (mkdir_all (w_fs w) (sv_view (sw_sv sw)) p perm)
            (go_mkdir_all (S (length p)) (sw_fs sw) (sw_sv sw) p perm) Ha).
   - apply (impl_lift w _ _ (wstep_mkdir_all w vi _ p perm Hv)); [left; discriminate|exact I].
   - apply spec_mkdir_all.
-  - rewrite <- Hfs, Ep. exact (proj1 (step_mkdir_all (sw_fs sw) (sw_sv sw) perm done rest par Hos Hadm Hg Hd Hfr Hbit Hsg Hlen)).
+  - rewrite <- Hfs, Ep. exact (proj1 (step_mkdir_all (sw_fs sw) (sw_sv sw) perm done rest par Hos Hadm Hg Hd Hfr Hbit Hlen)).
 Qed.
 
 Theorem links_ok_spec_step_m (vi : nat) (sw : sworld) (c : call) :
@@ -78,9 +77,9 @@ Theorem links_ok_spec_step_m (vi : nat) (sw : sworld) (c : call) :
 Proof.
   intros [Hc|Hc] Hpv Hok; [exact (links_ok_spec_step_x vi sw c Hc Hpv Hok)|].
   destruct c; try (destruct Hc; fail).
-  destruct Hc as (-> & Hos & Hadm & done & rest & par & Ep & Hg & Hd & Hfr & Hbit & Hsg & Hlen).
+  destruct Hc as (-> & Hos & Hadm & done & rest & par & Ep & Hg & Hd & Hfr & Hbit & Hlen).
   rewrite spec_mkdir_all. cbn [fst sw_fs sw_sv]. split; [|reflexivity].
-  rewrite Ep, (proj2 (step_mkdir_all (sw_fs sw) (sw_sv sw) perm done rest par Hos Hadm Hg Hd Hfr Hbit Hsg Hlen)).
+  rewrite Ep, (proj2 (step_mkdir_all (sw_fs sw) (sw_sv sw) perm done rest par Hos Hadm Hg Hd Hfr Hbit Hlen)).
   cbn [fst]. apply links_ok_mk_chain; assumption.
 Qed.
 
@@ -109,14 +108,14 @@ Module StepHistMExamples.
     unfold hm. cbn [call_ok_run_m gen_call_ok_run]. split; [|split; [|split; [|exact I]]]; intros Hsh _ _.
     - right. split; [reflexivity|]. split; [reflexivity|]. split; [reflexivity|].
       exists [s_d; s_e], [s_x; s_missing; s_d], 2. split; [reflexivity|]. split; [good_tac|]. split; [split; reflexivity|].
-      split; [intros c r [= <- <-]; reflexivity|]. split; [reflexivity|]. split; [intros _; reflexivity|].
+      split; [intros c r [= <- <-]; reflexivity|]. split; [reflexivity|].
       unfold SEARCH_FUEL. cbn [length app]. lia.
     - left. left. split; [exact Hsh|]. split; [reflexivity|]. exists [s_d; s_e; s_x; s_missing; s_d]. split; [reflexivity|].
       split; [good_tac|split; vm_compute; discriminate].
     - right. split; [reflexivity|]. split; [reflexivity|]. split; [reflexivity|].
       exists [s_d; s_e; s_x], [], (length tree). split; [reflexivity|]. split; [good_tac|].
       split; [split; vm_compute; reflexivity|].
-      split; [intros c r E; discriminate E|]. split; [vm_compute; reflexivity|]. split; [intros E; congruence|].
+      split; [intros c r E; discriminate E|]. split; [vm_compute; reflexivity|].
       unfold SEARCH_FUEL. cbn [length app]. lia.
   Qed.
 
